@@ -18,9 +18,10 @@ CONSTANTS MaxOps, Batches, Dev
 \* A, Aplus and Aplus2 share a table name and grow by one field each (the table evolves TWICE in one session);
 \* C is a type whose name begins with "sqlite" (SQLite's own tables begin with "sqlite_": the reader must not
 \* confuse the two)
-Descs == {"A", "Aplus", "Aplus2", "B", "C"}
+\* Aalt is as wide as A but swaps a field for another one (a version that gains a field WITHOUT becoming wider)
+Descs == {"A", "Aplus", "Aplus2", "Aalt", "B", "C"}
 NameOf(d) == CASE d = "B" -> "tb" [] d = "C" -> "tc" [] OTHER -> "ta"
-FieldsOf(d) == CASE d = "A" -> <<"a", "n">> [] d = "Aplus" -> <<"a", "n", "extra">> [] d = "Aplus2" -> <<"a", "n", "extra", "extra2">>
+FieldsOf(d) == CASE d = "A" -> <<"a", "n">> [] d = "Aplus" -> <<"a", "n", "extra">> [] d = "Aplus2" -> <<"a", "n", "extra", "extra2">> [] d = "Aalt" -> <<"a", "alt">>
                  [] d = "B" -> <<"q", "b", "ts", "p", "ip">> [] d = "C" -> <<"q">>
 Tables == {"ta", "tb", "tc"}
 
